@@ -5,6 +5,7 @@ import (
 	"go/token"
 	"go/types"
 	"math/big"
+	"math/rand"
 	"os"
 	"runtime/debug"
 	"sort"
@@ -416,6 +417,11 @@ func (w *worker) runPath(fn *ssa.Function, trace []Decision, res *HarnessResult,
 
 // inputsFromModel evaluates the nondet log (and observation terms) under a model of the PC.
 func (p *Path) inputsFromModel() ([]ReplayInput, []string, string) {
+	return p.inputsFromModelWith(nil)
+}
+
+// inputsFromModelWith asks for a model of the path condition plus extra.
+func (p *Path) inputsFromModelWith(extra *term.T) ([]ReplayInput, []string, string) {
 	var want []*term.T
 	for _, n := range p.nondets {
 		want = append(want, n.Terms...)
@@ -427,7 +433,7 @@ func (p *Path) inputsFromModel() ([]ReplayInput, []string, string) {
 	for _, t := range want {
 		p.S.Declare(p.F, t)
 	}
-	r, vals := p.check(nil, want)
+	r, vals := p.check(extra, want)
 	if r == smt.Unsat {
 		return nil, nil, "infeasible"
 	}
@@ -482,6 +488,11 @@ func signed64(v *big.Int) *big.Int {
 }
 
 func fmtObs(o obsRec, vs []*big.Int) string {
+	for _, t := range o.Terms {
+		if t.UFDep {
+			return "?"
+		}
+	}
 	switch o.Kind {
 	case "bool":
 		return fmt.Sprint(vs[0].Sign() != 0)
@@ -507,7 +518,40 @@ func (p *Path) mkViolation(kind, label, pos string) *Violation {
 		}
 		return nil
 	}
-	return &Violation{Harness: p.H.Name, Kind: kind, Label: label, Pos: pos, Inputs: ins, Trace: append([]Decision{}, p.newTrace...)}
+	v := &Violation{Harness: p.H.Name, Kind: kind, Label: label, Pos: pos, Inputs: ins, Trace: append([]Decision{}, p.newTrace...)}
+	// If the path depends on an uninterpreted function, the solver's model may
+	// rely on function values the real function does not have. Offer further
+	// models of the same path (differing in randomly pinned input bytes) so that
+	// the native replay can find one that holds for the real function.
+	ufDep := false
+	for _, c := range p.pc {
+		if c.UFDep {
+			ufDep = true
+		}
+	}
+	if ufDep {
+		var cands []*term.T
+		for _, n := range p.nondets {
+			for _, t := range n.Terms {
+				if t.Op == term.OVar && t.Sort.K == term.KBV {
+					cands = append(cands, t)
+				}
+			}
+		}
+		rng := rand.New(rand.NewSource(int64(len(p.newTrace))*7919 + int64(len(cands))))
+		for try := 0; try < 12 && len(cands) > 0 && len(v.Alt) < 8; try++ {
+			pin := p.F.True()
+			for k := 0; k < 2; k++ {
+				t := cands[rng.Intn(len(cands))]
+				val := new(big.Int).SetUint64(rng.Uint64())
+				pin = p.F.And(pin, p.F.Eq(t, p.F.BVConst(val, t.Sort.W)))
+			}
+			if alt, _, bad := p.inputsFromModelWith(pin); bad == "" {
+				v.Alt = append(v.Alt, alt)
+			}
+		}
+	}
+	return v
 }
 
 func (p *Path) finishDone(res *HarnessResult, rmu *sync.Mutex) {
